@@ -1,7 +1,8 @@
 ------------------------------- MODULE KnnGen -------------------------------
-(* Scenario export: every symmetric rank matrix of the Knn design model as a concrete distance matrix. *)
+(* Scenario export: every symmetric (or, with Directed, every) rank matrix of the Knn design model as a concrete distance matrix. *)
 EXTENDS Knn
-GInit == W \in [Pairs -> 0..MaxW] /\ k = 1
+GInit == /\ IF Directed THEN W \in [Pairs -> 0..MaxW] ELSE \E S \in [UPairs -> 0..MaxW] : W = Sym(S)
+         /\ k = 1
 GSpec == GInit /\ [][FALSE /\ UNCHANGED kvars]_kvars
 Export == PrintT(<<"SCN", [i \in Nodes |-> [j \in Nodes |-> Dist(i, j)]]>>)
 =============================================================================
